@@ -430,6 +430,14 @@ impl Complement for AdjacencyList {
             let handle = spawn(move || {
                 let mut partial = Vec::with_capacity(end - start);
 
+                #[cfg(feature = "verif")]
+                crate::verif::span(
+                    crate::verif::AL_COMPLEMENT,
+                    crate::verif::BEGIN,
+                    start,
+                    end,
+                );
+
                 for u in start..end {
                     let out_neighbors = unsafe { arcs_arc.get_unchecked(u) };
 
@@ -481,6 +489,14 @@ impl Complement for AdjacencyList {
                     partial.push(complement_set);
                 }
 
+                #[cfg(feature = "verif")]
+                crate::verif::span(
+                    crate::verif::AL_COMPLEMENT,
+                    crate::verif::END,
+                    start,
+                    end,
+                );
+
                 partial
             });
 
@@ -529,6 +545,15 @@ impl Complete for AdjacencyList {
 
             let handle = spawn(move || {
                 let mut local = Vec::with_capacity(end - start);
+
+                #[cfg(feature = "verif")]
+                crate::verif::span(
+                    crate::verif::AL_COMPLETE,
+                    crate::verif::BEGIN,
+                    start,
+                    end,
+                );
+
                 let vertices = (0..order).collect::<BTreeSet<_>>();
 
                 for u in start..end {
@@ -537,6 +562,14 @@ impl Complete for AdjacencyList {
 
                     local.push((u, out_neighbors));
                 }
+
+                #[cfg(feature = "verif")]
+                crate::verif::span(
+                    crate::verif::AL_COMPLETE,
+                    crate::verif::END,
+                    start,
+                    end,
+                );
 
                 local
             });
@@ -638,7 +671,23 @@ impl DegreeSequence for AdjacencyList {
             for (chunk, local_indegrees) in
                 self.arcs.chunks(chunk_size).zip(indegree_chunks.iter_mut())
             {
+                #[cfg(feature = "verif")]
+                let verif_lo = (chunk.as_ptr() as usize
+                    - self.arcs.as_ptr() as usize)
+                    / size_of::<BTreeSet<usize>>();
+
+                #[cfg(feature = "verif")]
+                let verif_hi = verif_lo + chunk.len();
+
                 let _ = s.spawn(move || {
+                    #[cfg(feature = "verif")]
+                    crate::verif::span(
+                        crate::verif::AL_DEGREE_SEQUENCE,
+                        crate::verif::BEGIN,
+                        verif_lo,
+                        verif_hi,
+                    );
+
                     for out_neighbors in chunk {
                         for &v in out_neighbors {
                             unsafe {
@@ -646,6 +695,14 @@ impl DegreeSequence for AdjacencyList {
                             }
                         }
                     }
+
+                    #[cfg(feature = "verif")]
+                    crate::verif::span(
+                        crate::verif::AL_DEGREE_SEQUENCE,
+                        crate::verif::END,
+                        verif_lo,
+                        verif_hi,
+                    );
                 });
             }
         });
@@ -973,6 +1030,14 @@ impl IsSemicomplete for AdjacencyList {
                 let _ = s.spawn(move || {
                     let ptr = arcs_ptr_usize as *const BTreeSet<usize>;
 
+                    #[cfg(feature = "verif")]
+                    crate::verif::span(
+                        crate::verif::AL_IS_SEMICOMPLETE,
+                        crate::verif::BEGIN,
+                        start,
+                        end,
+                    );
+
                     for u in start..end {
                         if !result_clone.load(atomic::Ordering::Relaxed) {
                             break;
@@ -998,6 +1063,14 @@ impl IsSemicomplete for AdjacencyList {
                             }
                         }
                     }
+
+                    #[cfg(feature = "verif")]
+                    crate::verif::span(
+                        crate::verif::AL_IS_SEMICOMPLETE,
+                        crate::verif::END,
+                        start,
+                        end,
+                    );
                 });
             }
         });
@@ -1296,6 +1369,14 @@ impl Union for AdjacencyList {
                     let other_ptr = other_ptr_usize as *const BTreeSet<usize>;
                     let arcs_ptr = arcs_ptr_usize as *mut BTreeSet<usize>;
 
+                    #[cfg(feature = "verif")]
+                    crate::verif::span(
+                        crate::verif::AL_UNION,
+                        crate::verif::BEGIN,
+                        chunk_start,
+                        chunk_end,
+                    );
+
                     for u in chunk_start..chunk_end {
                         let set_a = if u < self.order() {
                             (*self_ptr.add(u))
@@ -1319,6 +1400,14 @@ impl Union for AdjacencyList {
 
                         write(arcs_ptr.add(u), merged.into_iter().collect());
                     }
+
+                    #[cfg(feature = "verif")]
+                    crate::verif::span(
+                        crate::verif::AL_UNION,
+                        crate::verif::END,
+                        chunk_start,
+                        chunk_end,
+                    );
                 });
             }
         });
